@@ -172,6 +172,73 @@ def handleContracts (bits minRep minLen : Nat) (ws : List Str) (dict : List Dict
     "K " ++ (if elimContractsB cfg st.minimized then "1" else "0") ++ " " ++ (if elimContractsB cfg st.trie then "1" else "0")
       ++ " " ++ (if Dfa.minimizeContractB st.trie Dfa.pickMin then "1" else "0")
 
+/-! ### unit level: terms over `union` / `concatenate`, printed with `fmtRegExp`
+
+term := 'L' '[' [grapheme ('_' grapheme)*] ']' | 'U' term term | 'N' term term
+grapheme := chars '~' min '~' max ['{' grapheme (';' grapheme)* '}'] -/
+
+def takeWhileC (f : Char → Bool) : List Char → List Char × List Char
+  | [] => ([], [])
+  | c :: r => if f c then let (a, b) := takeWhileC f r; (c :: a, b) else ([], c :: r)
+
+mutual
+partial def parseGraphemeD (s : List Char) : Option (Grapheme × List Char) :=
+  let (cs, r1) := takeWhileC (· != '~') s
+  match (String.ofList cs |>.splitOn ",").mapM parseHexStr, r1 with
+  | some chars, '~' :: r2 =>
+    let (mn, r3) := takeWhileC Char.isDigit r2
+    match (String.ofList mn).toNat?, r3 with
+    | some mnv, '~' :: r4 =>
+      let (mx, r5) := takeWhileC Char.isDigit r4
+      match (String.ofList mx).toNat? with
+      | some mxv =>
+        match r5 with
+        | '{' :: r6 =>
+          match parseGraphemesD r6 ';' '}' [] with
+          | some (reps, r7) => some (Grapheme.mk chars reps mnv mxv, r7)
+          | none => none
+        | _ => some (Grapheme.mk chars [] mnv mxv, r5)
+      | none => none
+    | _, _ => none
+  | _, _ => none
+partial def parseGraphemesD (s : List Char) (sep close : Char) (acc : List Grapheme) : Option (List Grapheme × List Char) :=
+  match parseGraphemeD s with
+  | some (g, c :: r) =>
+    if c = sep then parseGraphemesD r sep close (g :: acc)
+    else if c = close then some ((g :: acc).reverse, r)
+    else none
+  | _ => none
+end
+
+partial def evalTerm (cfg : Config) : List Char → Option (Option Expr × List Char)
+  | 'L' :: '[' :: ']' :: r => some (some (Expr.lit []), r)
+  | 'L' :: '[' :: r =>
+    match parseGraphemesD r '_' ']' [] with
+    | some (gs, r2) => some (some (Expr.lit gs), r2)
+    | none => none
+  | 'U' :: r =>
+    match evalTerm cfg r with
+    | some (a, r2) =>
+      match evalTerm cfg r2 with
+      | some (b, r3) => some (Expr.union cfg a b, r3)
+      | none => none
+    | none => none
+  | 'N' :: r =>
+    match evalTerm cfg r with
+    | some (a, r2) =>
+      match evalTerm cfg r2 with
+      | some (b, r3) => some (Expr.concatenate a b, r3)
+      | none => none
+    | none => none
+  | _ => none
+
+def handleTerm (bits minRep minLen : Nat) (term : String) : String :=
+  let cfg := cfgOfBits bits minRep minLen
+  match evalTerm cfg term.toList with
+  | some (some e, []) => "X " ++ dumpExpr e ++ "\t" ++ hexStr (fmtRegExp cfg e)
+  | some (none, []) => "X none"
+  | _ => "E parse"
+
 def handleLine (line : String) : String :=
   match line.trimAscii.toString.splitOn " " with
   | [kind, bits, mr, ml, tcs, dict] =>
@@ -188,6 +255,10 @@ def handleLine (line : String) : String :=
       | some b, some r, some l, some ws, some d => handleBuild (kind = "S") b r l ws d
       | _, _, _, _, _ => "E parse"
     else "E unknown"
+  | ["X", bits, mr, ml, term] =>
+    match bits.toNat?, mr.toNat?, ml.toNat? with
+    | some b, some r, some l => handleTerm b r l term
+    | _, _, _ => "E parse"
   | ["A", which] =>
     if which = "wasm" then compareApi Gen.wasmSetters
     else if which = "py" then compareApi Gen.pySetters
